@@ -116,8 +116,8 @@ def classify_segment_errors(errors: list, seg: dict) -> list:
     return out
 
 
-INIT_BOX_INDEX = ["mvhd", "mvex", "trex", "dinf", "stts", "stsc", "stsz or stz2", "stco or co64",
-                  "vmhd or smhd or hmhd or sthd or nmhd"]
+INIT_BOX_INDEX = ["mvhd", "mvex", "trex", "minf", "dinf", "stbl", "stsd", "stts", "stsc", "stsz or stz2",
+                  "stco or co64", "vmhd or smhd or hmhd or sthd or nmhd"]
 
 
 def classify_init_errors(errors: list) -> list:
